@@ -608,3 +608,49 @@ func TestC02Long(t *testing.T) {
 		}
 	})
 }
+
+// c02ListAlphabet: the lexemes of calls, lists and spread.
+var c02ListAlphabet = []string{"f", "(", ")", "a", ",", "...", "[", "]", "."}
+
+// TestC02Lists: longer sequences over the small alphabet of calls, lists and
+// spread: where `...` and `,` may stand in an argument list is decided by
+// sequences of 6 and more tokens.
+func TestC02Lists(t *testing.T) {
+	k := h.N(7, 8)
+	run := h.Begin("C02", "lists", fmt.Sprintf("bounded-exhaustive: every sequence of 1..%d tokens over {f, (, ), a, ',', ..., [, ], .}, space separated; oracle: reference parser (accept/reject and tree dump); non-trivial: accepted with a spread or two list levels, or rejected with a spread", k))
+	defer run.End(t)
+	var sb strings.Builder
+	enumSeq(len(c02ListAlphabet), k, func(seq []int) {
+		if run.NViolations() >= 3 {
+			return
+		}
+		sb.Reset()
+		spread, opens := false, 0
+		for i, s := range seq {
+			if i > 0 {
+				sb.WriteByte(' ')
+			}
+			sb.WriteString(c02ListAlphabet[s])
+			switch c02ListAlphabet[s] {
+			case "...":
+				spread = true
+			case "(", "[":
+				opens++
+			}
+		}
+		text := sb.String()
+		want := ref.Parse([]byte(text))
+		cls := "rejected"
+		if want != nil {
+			cls = "accepted"
+		}
+		run.Count(spread || (want != nil && opens >= 2), cls)
+		if len(seq) == k && want != nil && spread && (seq[1]+seq[k-2])%5 == 0 {
+			run.Sample(cls, text)
+		}
+		if msg := checkGrammar(text, ""); msg != "" {
+			run.Fail("c02", mkTextCase(text, ""), msg)
+		}
+	})
+	run.Exhaustive()
+}
